@@ -11,16 +11,6 @@ var vfLocalIPs = []string{"127.0.0.1", "127.1.2.3", "127.255.255.254", "::1", "0
 	"0.0.0.0", "::", "::0", "0:0:0:0:0:0:0:0", "::ffff:0.0.0.0", "0::", "::0.0.0.0"}
 var vfRemoteHosts = []string{"example.com", "10.0.0.1", "128.0.0.1", "2001:db8::1", "localhost.example.com", "126.255.255.255"}
 
-func vfAnyCase(label, s string) string {
-	b := []byte(s)
-	for i := range b {
-		if b[i] >= 'a' && b[i] <= 'z' {
-			b[i] &^= vfrt.Byte(label) & 0x20
-		}
-	}
-	return string(b)
-}
-
 //vf:harness property=C04 nopanic reach=localhost-name,localhost-ip,remote-host
 func vfH_C04_localhost() {
 	hp := &HTTPProxy{localhost: []string{"localhost", "0.0.0.0", "::", "myhost"}}
